@@ -95,6 +95,27 @@ func marshalFamily(c *seq.Ctx) {
 		}
 		sets = append(sets, sortedUnique(mid))
 	}
+	// every run of consecutive indices [a, a+len) for every start a and lengths on both sides of the
+	// iterator's sparse/dense word threshold (9/10), half words, whole words and the 63/64 switch;
+	// and every stride-2 / stride-3 comb of those lengths (members spread over 2-3 times the span)
+	for _, ln := range []int{1, 2, 8, 9, 10, 11, 16, 31, 32, 33, 62, 63, 64, 65} {
+		for a := 0; a+ln <= 1024; a++ {
+			run := make([]int, ln)
+			for i := range run {
+				run[i] = a + i
+			}
+			sets = append(sets, run)
+		}
+		for _, stride := range []int{2, 3} {
+			for a := 0; a+(ln-1)*stride < 1024; a += 1 + a%5 {
+				comb := make([]int, ln)
+				for i := range comb {
+					comb[i] = a + i*stride
+				}
+				sets = append(sets, comb)
+			}
+		}
+	}
 	alpha := []int{0, 1, 63, 64, 65, 127, 128, 511, 512, 960, 1022, 1023}
 	for mask := 0; mask < 1<<12; mask++ {
 		var s []int
@@ -509,7 +530,7 @@ func blocksU32(c *seq.Ctx) {
 
 func main() {
 	r := ev.Start("C09")
-	r.Rule("Marshal->Unmarshal->Equal over member counts 0,1,2,3,16,62..66,127,128,512,1023,1024 in five placements plus all subsets of a 12-index boundary alphabet (both encodings, the 63/64 switch); Unmarshal of all byte strings of length 0..2, length 3-4 over a 6-byte alphabet, and for every length 5..130 zero/ff/ascending/one-invalid-element-at-each-position/duplicate fills, against the denoted set; block types over boundary starts (incl. 2^22±1, 2^31, 2^32-2) and every in-block offset for the 32-bit tips; distinct = outcome classes")
+	r.Rule("Marshal->Unmarshal->Equal over member counts 0,1,2,3,16,62..66,127,128,512,1023,1024 in five placements, every run of 1..65 consecutive indices at every start and stride-2/3 combs, plus all subsets of a 12-index boundary alphabet (both encodings, the 63/64 switch); Unmarshal of all byte strings of length 0..2, length 3-4 over a 6-byte alphabet, and for every length 5..130 zero/ff/ascending/one-invalid-element-at-each-position/duplicate fills, against the denoted set; block types over boundary starts (incl. 2^22±1, 2^31, 2^32-2) and every in-block offset for the 32-bit tips; distinct = outcome classes")
 	r.Assume("a byte string denotes: empty set (len 0); LE u16 member list (even len < 128, every element <= 1023); 16 LE words (len 128); nothing otherwise")
 	fams := []seq.Family{
 		{Name: "marshal-roundtrip", Run: marshalFamily},
